@@ -23,6 +23,7 @@ fn root_values() -> Vec<(&'static str, MV)> {
         ("b", MV::Bytes(vec![1])),
         ("m", MV::Map(vec![(MK::Str("k".into()), li(&[1]))])),
         ("n", MV::List(vec![li(&[1]), li(&[2])])),
+        ("v", MV::Int(100)),
     ]
 }
 
@@ -34,9 +35,12 @@ fn build_root() -> Context<'static> {
     ctx
 }
 
-const P18: [&str; 18] = [
+const P18: [&str; 22] = [
     "xs + [9]", "xs + ys", "xs + xs", "(xs + ys) + xs", "e + xs", "s + 'c'", "s + s", "es + s", "xs.map(v, v + 1)", "xs.filter(v, v > 1)", "n.map(l, l + [0])", "n[0] + n[1]",
     "m.k + [2]", "m.map(k, m[k] + [5])", "[xs, xs]", "{'a': xs}", "r0 + [7]", "r0 + r0",
+    // a macro that fails in the middle of its loop, and macros that read a same-named outer
+    // variable / an undeclared name afterwards (stale state of an aborted evaluation)
+    "xs.map(v, 10 / (v - 2))", "ys.map(w, v + w)", "xs.filter(u, 10 / (u - 2) > 0)", "ys.map(w, [w, u])",
 ];
 
 fn arc_id(v: &Value) -> Option<(usize, usize)> {
@@ -101,6 +105,8 @@ struct PartA {
     progs: Vec<Program>,
     prog_debug: Vec<String>,
     root_snapshot: Vec<(&'static str, MV)>,
+    /// result of every program that does not read r0, computed once before any history ran
+    baseline: Vec<Option<Out>>,
 }
 
 impl PartA {
@@ -121,6 +127,11 @@ impl PartA {
                     let (o1, o2) = (crate::mv::out_of(r1.clone()), crate::mv::out_of(r2));
                     if let Out::Panic(pn) = &o1 {
                         return Err(("panic".into(), format!("step {}: `{}` panicked: {}", step, P18[*p], pn)));
+                    }
+                    if let Some(b) = &self.baseline[*p] {
+                        if *b != o1 {
+                            return Err(("differs-from-pristine-result".into(), format!("step {}: `{}` gave {} but {} when it was executed first, before any history", step, P18[*p], o1.show(), b.show())));
+                        }
                     }
                     if o1 != o2 {
                         return Err(("not-repeatable".into(), format!("step {}: `{}` gave {} and then {} against the same context", step, P18[*p], o1.show(), o2.show())));
@@ -218,6 +229,18 @@ fn part_a(run: &mut Run) {
         progs: P18.iter().map(|s| Program::compile(s).expect("P18 compiles")).collect(),
         prog_debug: P18.iter().map(|s| format!("{:?}", Program::compile(s).unwrap())).collect(),
         root_snapshot: root_values(),
+        baseline: P18
+            .iter()
+            .map(|s| {
+                if s.contains("r0") {
+                    None
+                } else {
+                    let root = build_root();
+                    let child = root.new_inner_scope();
+                    Some(subj::exec(&Program::compile(s).unwrap(), &child))
+                }
+            })
+            .collect(),
     };
     let max_depth = run.pick(3usize, 5usize);
     run.sub("histories");
